@@ -9,11 +9,15 @@ scalar, one for a flat list, more for a list holding lists or dictionaries).  Al
 object takes the next unused identity from a counter that is threaded through the functions
 (`copy.deepcopy`, `result = {}`, `return {}`), exactly where the Python code creates objects.
 
+Arguments are assumed tree-shaped and disjoint: `copyV` allocates one new object per occurrence, whereas
+`copy.deepcopy` memoises (an object reachable twice is copied once).
+
 The other arguments of `intersection` (`dicts[1:]`) and the second argument of `difference` are
 only compared by value and iterated over — nothing of them is ever stored — so they are plain
 values here; storing one of their objects in the result is therefore not expressible, which is the
 point of the transcription: the harness compares the identity pattern predicted here (fresh /
-object of the first argument at which path) with the `id()` graph of the real results. -/
+object of the first argument at which path) with the `id()` graph of the real results.  `Model/C07Mut.lean` has the
+versions in which *every* argument carries identities (`interArgs`, `diffArgs`) together with the write logs. -/
 
 namespace Lena.C07
 open Lena Lena.Val
